@@ -262,6 +262,12 @@ fn rewrite_case(u: &mut Choices, sz: Size) -> CaseResult {
         let mut body = g.gen_cnf(u, res_ctx.as_ref(), 1, &lv, RefCtx::Inner);
         // every query variable is used: compared with the value it selects in the first resource of
         // the type (so the clause holds there and, often, not in the next resource)
+        // half of these blocks consist of the variable clauses only (a random body mostly FAILs on
+        // its own, which would hide what the variables do)
+        let random_body = body.clone();
+        if !lets.is_empty() && u.chance(1, 2) {
+            body.clear();
+        }
         for l in &lets {
             if let Expr::Query { q: Query { head: Head::Key(k), parts }, .. } = &l.value {
                 let mut ps = vec![Part::Key(k.clone())];
@@ -273,6 +279,9 @@ fn rewrite_case(u: &mut Choices, sz: Size) -> CaseResult {
                 };
                 body.push(vec![Item::Clause(cl)]);
             }
+        }
+        if body.is_empty() {
+            body = random_body;
         }
         let when = if u.chance(1, 3) { Some(g.gen_cond(u, Some(&doc), 0, &Vars::default())) } else { None };
         let tb = Item::TypeBlock { ty: ty.clone(), when: when.clone(), lets: lets.clone(), body: body.clone() };
